@@ -74,7 +74,7 @@ impl History {
             .filter_map(|a| Some((a.get(0)?.as_u64()?, a.get(1)?.as_u64()? as u32)))
             .collect();
         let n_keys = attempts.iter().map(|a| a.1 + 1).max().unwrap_or(1).max(u("n_keys").unwrap_or(1) as u32);
-        if n_keys > 4096 {
+        if n_keys > 65_536 {
             return None;
         }
         Some(History {
@@ -202,7 +202,41 @@ fn weighted(rng: &mut Rng, w: &[u64]) -> usize {
     w.len() - 1
 }
 
+/// A crowd: one key uses up its budget, then thousands of keys nobody has seen before make one
+/// attempt each (a scan, a busy evening behind PROXY protocol) - more than any table size a
+/// limiter might want to cap itself at - and then the first key and a few of the crowd return
+/// inside the same window. The oracles are the usual ones (bounds per key, projection, tracked keys).
+fn generate_crowd(seed: u64, index: u64) -> History {
+    let mut rng = Rng::stream(seed, index ^ 0xc0de_0000);
+    let limit = *rng.pick(&[1u64, 2, 3, 5]);
+    let d = 60_000_000_000u64; // one minute
+    let crowd = *rng.pick(&[9_000u32, 12_000, 17_000]);
+    let mut attempts: Vec<(u64, u32)> = Vec::new();
+    // key 0: limit admitted, two refused
+    for i in 0..limit + 2 {
+        attempts.push((if i == 0 { 0 } else { 1_000_000 }, 0));
+    }
+    // the crowd, all within a tenth of the window
+    let step = (d / 10) / crowd as u64;
+    for k in 1..=crowd {
+        attempts.push((step, k));
+    }
+    // returns inside the window: key 0 (still over its budget), some of the crowd (second attempt)
+    for j in 0..6u32 {
+        attempts.push((d / 100, 0));
+        attempts.push((1_000, 1 + (j * 1_531) % crowd));
+    }
+    // and after the window has rolled over once, and after a long silence
+    attempts.push((d, 0));
+    attempts.push((3 * d, 0));
+    attempts.push((1_000, crowd));
+    History { limit, duration_ns: d, n_keys: crowd + 1, tempo: "crowd".into(), keying: "crowd".into(), attempts, dup_every: 3, dup_offset: 0 }
+}
+
 fn generate(seed: u64, index: u64) -> History {
+    if index % 1000 == 777 {
+        return generate_crowd(seed, index);
+    }
     let mut rng = Rng::stream(seed, index);
     let limit = *rng.pick(&LIMITS);
     let d = *rng.pick(&DURATIONS_NS);
